@@ -50,3 +50,38 @@ Theorem C01_no_replay :
     Collision (vhash H v) (spec_width v).
 Proof. exact no_replay. Qed.
 Print Assumptions C01_no_replay.
+
+(* ---- a whole `-n N` run (all requests sent first, responses handled in order, each against its
+   own nonce and request, no state carried from one response to the next) ---- *)
+Require Import RV.Proofs.ClientRun.
+
+(* every time the run prints belongs to an authentic response to THAT request, is reported as
+   verified, and is that response's signed midpoint; a run that ends normally printed one time per
+   request *)
+Theorem C01_run_sound :
+  forall H ed_verify ed_point, HashLen H -> forall v pk xs outs e,
+    Forall arrived_ok xs -> client_run H ed_verify ed_point v (Some pk) xs = (outs, e) ->
+    (length outs <= length xs)%nat
+    /\ (forall i o, nth_error outs i = Some o ->
+          exists x, nth_error xs i = Some x /\ good_output H ed_verify ed_point v pk x o)
+    /\ (e = RunDone -> length outs = length xs).
+Proof. exact run_outputs. Qed.
+Print Assumptions C01_run_sound.
+
+(* the first unauthentic response the run reaches ends the process with a panic (non-zero exit);
+   nothing is printed for it or for anything after it — whatever genuine responses came before *)
+Theorem C01_run_rejects :
+  forall H ed_verify ed_point, HashLen H -> forall v pk xs i x d outs e,
+    Forall arrived_ok xs -> client_run H ed_verify ed_point v (Some pk) xs = (outs, e) ->
+    nth_error xs i = Some x -> ex_arrival x = Arrived d ->
+    authentic H ed_verify ed_point v pk (ex_request x) (ex_nonce x) d = false ->
+    (forall j x', (j < i)%nat -> nth_error xs j = Some x' -> ex_arrival x' <> TimedOut) ->
+    exit_zero e = false /\ (length outs <= i)%nat.
+Proof. exact run_rejects. Qed.
+Print Assumptions C01_run_rejects.
+
+Theorem C01_run_unverified_without_key :
+  forall H ed_verify ed_point v xs outs e,
+    client_run H ed_verify ed_point v None xs = (outs, e) -> Forall (fun o => o_verified o = false) outs.
+Proof. exact run_unverified. Qed.
+Print Assumptions C01_run_unverified_without_key.
